@@ -111,6 +111,9 @@ def _case(vals, acc):
             else:
                 want_here = want
             res[ri] = ('value', strutils.string_to_bytes(text, return_int=ri, **kw))
+            again = strutils.string_to_bytes(text, return_int=ri, **kw)
+            if again != res[ri][1] or type(again) is not type(res[ri][1]):
+                res[ri] = ('raises', 'UnstableAnswer:%r-then-%r' % (res[ri][1], again))
         except ValueError:
             res[ri] = ('ValueError',)
         except Exception as e:
